@@ -58,6 +58,9 @@ package neutrino
 //	mute      accepts the connection and never sends a byte
 //	midmsg    answers getheaders with half a headers message and closes the connection
 //	nocf      honest, but does not advertise the compact-filter service bit
+//
+// Orthogonal to the kind: Dup = the node sends every cfcheckpt and cfheaders answer twice (a well-formed
+// duplicate; the all-peers queries must not hand a peer's second answer to their callback).
 
 import (
 	"bytes"
@@ -656,6 +659,7 @@ type vnBehaviour struct {
 	Len   int    `json:"len"`   // own blocks of a lighter / invalid branch
 	Style string `json:"style"` // cfhlie: omit | mismatch | none
 	Claim int    `json:"claim"` // added to the height announced in the version message
+	Dup   bool   `json:"dup"`   // every cfcheckpt / cfheaders answer is sent twice (any kind that answers)
 }
 
 type vnHeld struct {
@@ -1196,6 +1200,9 @@ func (nc *vnNodeConn) onGetCFCheckpt(m *wire.MsgGetCFCheckpt, b vnBehaviour) {
 		_ = out.AddCFHeader(&v)
 	}
 	_ = nc.send(out)
+	if b.Dup {
+		_ = nc.send(out)
+	}
 }
 
 func (nc *vnNodeConn) onGetCFHeaders(m *wire.MsgGetCFHeaders, b vnBehaviour) {
@@ -1229,6 +1236,9 @@ func (nc *vnNodeConn) onGetCFHeaders(m *wire.MsgGetCFHeaders, b vnBehaviour) {
 		_ = out.AddCFHash(&v)
 	}
 	_ = nc.send(out)
+	if b.Dup {
+		_ = nc.send(out)
+	}
 }
 
 func (nc *vnNodeConn) onGetCFilters(m *wire.MsgGetCFilters, b vnBehaviour) {
